@@ -1,4 +1,156 @@
-//! C17 — stub, not built yet.
+//! C17 — every error points at the token that caused it.
+//! Several sources are evaluated on one interpreter (some with identical text); each has a prefix of
+//! comment / blank lines mixing LF, CRLF, CR, tabs and multi-byte characters, and most fail — at build
+//! time (unknown word, unbalanced closer) or at run time (an injected failing word at top level, in a
+//! loop, in a called definition).
+//! Correspondence: error kind, blamed token index, buffer name, line, column and quoted line must be
+//! what the model (compiler debug map + VM + token_location) computes.
+//! Oracle (implementation only): the quoted token really sits at (line, col) of the named buffer's
+//! text counted independently; the quoted line is that line; an unknown word is blamed on itself; an
+//! injected run-time failure is blamed on the injected word.
+use crate::canon;
+use crate::progen::{gen_program, GenCfg};
+use crate::props::c01::{dict_for, lex_all, tok_index, LIMIT};
 use crate::Ctx;
+use xeh::prelude::*;
 
-pub fn run(_ctx: &mut Ctx) {}
+fn prefix(r: &mut crate::rng::Rng) -> String {
+    let mut s = String::new();
+    for _ in 0..r.below(4) {
+        match r.below(7) {
+            0 => s.push_str("\\ comment\n"),
+            1 => s.push_str("\\ héllo wörld 日本\r\n"),
+            2 => s.push_str("\t\t\n"),
+            3 => s.push_str("\\( multi\n line \\)\n"),
+            4 => s.push_str("\"päd\" drop\r"),
+            5 => s.push_str("\r\n\r\n"),
+            _ => s.push_str("  \t"),
+        }
+    }
+    s
+}
+
+const FAILS: &[(&str, &str)] = &[("1 0 /", "/"), ("\"boom\" error", "error"), ("nil 1 +", "+"), ("false assert", "assert"), ("[ ] 3 nth", "nth")];
+
+fn inject(r: &mut crate::rng::Rng, prog: &str) -> (String, Option<&'static str>) {
+    let toks: Vec<&str> = prog.split(' ').filter(|t| !t.is_empty()).collect();
+    match r.below(6) {
+        0 => (prog.to_string(), None),
+        1 => { // unknown word somewhere
+            let i = r.below(toks.len() + 1);
+            let mut t: Vec<String> = toks.iter().map(|x| x.to_string()).collect();
+            t.insert(i, "nosuchword".into());
+            (t.join(" "), Some("nosuchword"))
+        }
+        2 => { // run-time failure appended at top level
+            let f = r.pick(FAILS);
+            (format!("{} {}", prog, f.0), Some(f.1))
+        }
+        3 => { // inside a called definition, called from a loop
+            let f = r.pick(FAILS);
+            let sep = *r.pick(&[" ", "\n", "\r\n", "\t"]);
+            (format!("{} : boom{}{} ; 2 0 do boom loop", prog, sep, f.0), Some(f.1))
+        }
+        4 => { // inside nested control flow
+            let f = r.pick(FAILS);
+            (format!("{} true if 1 0 do {} loop then", prog, f.0), Some(f.1))
+        }
+        _ => { // unbalanced closer
+            let c = *r.pick(&["then", "loop", "repeat", ";", "endcase", "]"]);
+            (format!("{} {}", prog, c), None)
+        }
+    }
+}
+
+fn independent_loc(text: &str, start: usize) -> (usize, usize, String) {
+    let before = &text[..start];
+    let line = before.matches('\n').count();
+    let seg_start = before.rfind(|c| c == '\n' || c == '\r').map(|i| i + 1).unwrap_or(0);
+    let col = text[seg_start..start].chars().count();
+    let seg_end = text[start..].find(|c| c == '\n' || c == '\r').map(|i| start + i).unwrap_or(text.len());
+    (line, col, text[seg_start..seg_end].to_string())
+}
+
+pub fn run(ctx: &mut Ctx) {
+    let cfg = GenCfg { endless: false, malformed_percent: 0, ..GenCfg::default() };
+    let mut done = 0;
+    while done < ctx.n {
+        let mut xs = Xstate::boot().unwrap();
+        xs.intercept_stdout(true);
+        xs.set_insn_limit(Some(LIMIT)).unwrap();
+        let mut texts: Vec<String> = Vec::new();
+        let nsources = ctx.rng.below(4) + 1;
+        for _ in 0..nsources {
+            done += 1;
+            let (text, marker) = if !texts.is_empty() && ctx.rng.chance(25) {
+                ctx.tag("source:identical-text");
+                (ctx.rng.pick(&texts).clone(), None)
+            } else {
+                let (prog, _) = gen_program(&mut ctx.rng, &cfg);
+                let (p2, marker) = inject(&mut ctx.rng, &prog);
+                // the injected word is the expected culprit only if the program itself runs cleanly
+                let base_ok = { let mut probe = xs.clone(); matches!(crate::guarded(|| probe.eval(&prog)), Some(Ok(()))) };
+                (format!("{}{}", prefix(&mut ctx.rng), p2), if base_ok { marker } else { None })
+            };
+            let t = match lex_all(&text) { Some(t) => t, None => { ctx.tag("skipped:lex-error"); continue; } };
+            let nsrc = xs.verif_dump().sources;
+            let d = xs.verif_dump();
+            let setup = format!(
+                "text={} toks={} nsrc={} dict={} code={} heap=v({}) ds=v({}) lim={}/-/- view=full",
+                canon::hex(text.as_bytes()),
+                t.text.iter().zip(t.ranges.iter()).map(|(a, r)| format!("{}@{}-{}", a, r.0, r.1)).collect::<Vec<_>>().join("|"),
+                nsrc, dict_for(&xs, &t.words), crate::vmcanon::code_str(&xs),
+                d.heap.iter().map(canon::cell).collect::<Vec<_>>().join(","),
+                d.data_visible.iter().map(canon::cell).collect::<Vec<_>>().join(","), LIMIT);
+            let is_build_err = { let mut probe = xs.clone(); matches!(crate::guarded(|| probe.compile(&text)), Some(Err(_))) };
+            xs.set_insn_limit(Some(LIMIT)).unwrap();
+            let r = crate::guarded(|| xs.eval(&text));
+            texts.push(text.clone());
+            let answer = match &r {
+                None => "panic".to_string(),
+                Some(Ok(())) => "ok".to_string(),
+                Some(Err(e)) => {
+                    let kind = if is_build_err { "builderr" } else { "err" };
+                    match xs.last_err_location() {
+                        None => format!("{} {} noloc", kind, canon::err(e)),
+                        Some(loc) => {
+                            let same_buf = loc.token.parent().as_str() == text && loc.filename.as_str() == format!("<buffer#{}>", nsrc);
+                            let start = loc.token.range().start;
+                            // ---- oracle: self-consistency against an independent count over the named buffer's text
+                            let case = format!("C17 source #{} `{}`", nsrc, text.escape_debug());
+                            let buf_text = loc.token.parent().to_string();
+                            let (l, c, whole) = independent_loc(&buf_text, start);
+                            let ok = loc.line == l && loc.col == c && loc.whole_line.as_str() == whole;
+                            ctx.check(ok, || case.clone(), || format!("line {} col {} whole {:?}", l, c, whole), || format!("line {} col {} whole {:?}", loc.line, loc.col, loc.whole_line.as_str()));
+                            // the quoted line, from column col on, starts with the token (up to its first line break)
+                            let tok_text: String = loc.token.as_str().split(|c| c == '\n' || c == '\r').next().unwrap_or("").to_string();
+                            let from_col: String = loc.whole_line.as_str().chars().skip(loc.col).collect();
+                            ctx.check(from_col.starts_with(&tok_text), || case.clone(), || format!("quoted line at col starts with {:?}", tok_text), || from_col.clone());
+                            if let Xerr::UnknownWord(w) = e {
+                                ctx.check(loc.token.as_str() == w.as_str(), || case.clone(), || format!("token = unknown word {}", w), || loc.token.to_string());
+                            }
+                            if let (Some(m), false) = (marker, is_build_err) {
+                                if !format!("{:?}", e).contains("limit reached") && same_buf {
+                                    ctx.check(loc.token.as_str() == m, || case.clone(), || format!("token = failing word {}", m), || loc.token.to_string());
+                                }
+                            }
+                            // the error belongs to the buffer that was just submitted unless it was raised inside a word defined earlier
+                            if is_build_err {
+                                ctx.check(same_buf, || case.clone(), || format!("<buffer#{}>", nsrc), || loc.filename.to_string());
+                            }
+                            if !same_buf { ctx.tag("loc:earlier-buffer"); "earlier-buffer".to_string() } else {
+                                format!("{} {} tok={} file={} line={} col={} whole={}", kind, canon::err(e), tok_index(&t, start, text.len()),
+                                    loc.filename, loc.line, loc.col, canon::hex(loc.whole_line.as_bytes()))
+                            }
+                        }
+                    }
+                }
+            };
+            ctx.tag(&format!("result:{}", answer.split(' ').next().unwrap_or("")));
+            if answer != "earlier-buffer" {
+                ctx.case(format!("C17 fail {}", setup), answer);
+            }
+            if r.as_ref().map(|x| x.is_err()).unwrap_or(true) && ctx.rng.chance(50) { break; }
+        }
+    }
+}
